@@ -2098,6 +2098,11 @@ func (l *Loader) loadByContext(ctx context.Context, source DataSource, fetchItem
 			return ctx.Err()
 		}
 
+		if item.abandoned {
+			// the leader's own context ended, its failure is not ours: load without single flight
+			return l.loadByContextDirect(ctx, source, headers, input, res)
+		}
+
 		if item.err != nil {
 			return item.err
 		}
@@ -2129,6 +2134,11 @@ func (l *Loader) loadByContext(ctx context.Context, source DataSource, fetchItem
 	// Perform the actual load
 	err := l.loadByContextDirect(ctx, source, headers, input, res)
 	if err != nil {
+		if ctx.Err() != nil {
+			// don't publish a failure caused by our own cancellation as the shared result
+			item.abandoned = true
+			return err
+		}
 		item.err = err
 		return err
 	}
